@@ -62,7 +62,7 @@ def build():
              ("R8", r'\(\*previous\)\.clone\(\)', 'previous.clone_map()'),
              ("R6", r'VhostUserError::ReqHandlerError\(io::Error::other\(e\)\)', 'e'),
              ("R8", r'self\.atomic_mem\.clone\(\)', 'self.atomic_mem.clone_handle()'),
-             ("R6", r'self\.mappings\s*\.retain\(\|mapping\| mapping\.gpa_base != region\.guest_phys_addr\)', 'retain_not_gpa(&mut self.mappings, region.guest_phys_addr)')]
+             ("R6", r'self\.mappings\s*\.retain\(\|mapping\| mapping\.(vmm_addr|size|gpa_base) != region\.(\w+)\)', r'retain_field_ne(&mut self.mappings, AddrField::\1, region.\2)')]
     MEMSIG = [("R3", r'&VhostUserSingleMemoryRegion', '&RegionMsg'), ("R10", r'file:\s*File', 'file: FileStub')]
     u.raw("impl MemHandler {")
     # replace_memory: install + notify, previous memory put back when the backend refuses
@@ -122,7 +122,7 @@ def build():
         ensures
             r is Ok ==> (exists|i: int| 0 <= i < old(self).atomic_mem.view@.len() && old(self).atomic_mem.view@[i].gpa == region.guest_phys_addr
                          && old(self).atomic_mem.view@[i].size == region.memory_size && final(self).atomic_mem.view@ == old(self).atomic_mem.view@.remove(i)), // [C13]
-            r is Ok ==> final(self).mappings@ == old(self).mappings@.filter(|m: AddrMapping| m.gpa_base != region.guest_phys_addr)
+            r is Ok ==> final(self).mappings@ == old(self).mappings@.filter(|m: AddrMapping| addr_field(m, AddrField::gpa_base) != region.guest_phys_addr)
                 && final(self).backend.updates@ == old(self).backend.updates@.push(final(self).atomic_mem.view@), // [C13]
             r is Err ==> final(self).mappings@ == old(self).mappings@, // [C13]
             r is Err ==> final(self).atomic_mem.view@ == old(self).atomic_mem.view@, // [C13:mem-intact]""")
